@@ -5,6 +5,7 @@ removed by the caller's `Scratch` context.  Specs are copied from /verif/spec.
 """
 import glob
 import json
+import itertools
 import os
 import re
 import shutil
@@ -146,11 +147,14 @@ def parse_cex(out):
   return states
 
 
+_UNIQ = itertools.count()
+
+
 def run(module, cfg, workdir, workers=None, files=None, extra=None, timeout=1800,
         env=None, coverage=False, deadlock=False, jvm=None, simulate=None):
   """Run TLC on `module` with configuration text `cfg` in `workdir`."""
   _copy_specs(workdir, files)
-  cfgname = 'MC_%s_%d.cfg' % (module, int(time.time() * 1000) % 100000)
+  cfgname = 'MC_%s_%d_%d.cfg' % (module, int(time.time() * 1000) % 100000, next(_UNIQ))
   with open(os.path.join(workdir, cfgname), 'w') as fh:
     fh.write(cfg)
   meta = tempfile.mkdtemp(prefix='meta-', dir=workdir)
@@ -305,7 +309,7 @@ def validate_batch(module, cfg, workdir, traces, files=None, timeout=1800, worke
   JsonDeserialize(IOEnv.TRACE_FILE), chooses tid in Init, and prints <<"DONE", tid>> when
   a behaviour consumed trace tid completely and <<"BAD", tid, ...>> for oracle records
   that fail.  Returns (res, done_ids, bad)."""
-  tf = os.path.join(workdir, 'traces_%d.json' % (int(time.time() * 1e6) % 10 ** 9))
+  tf = os.path.join(workdir, 'traces_%d_%d.json' % (int(time.time() * 1e6) % 10 ** 9, next(_UNIQ)))
   with open(tf, 'w') as fh:
     json.dump(traces, fh)
   env = {env_name: tf}
